@@ -16,7 +16,8 @@ for s in $seeds; do
   for p in $prop $extra; do
     if jq -e --arg p $p '.checks[]|select(.property_id==$p)' MANIFEST.json >/dev/null; then
       out=$(bin/govc check $p 2>&1); rc=$?
-      ob=$(echo "$out" | grep '^FAILED' | head -1 | awk '{print $2}')
+      # first failing obligation that is not a listed known finding (those print FAILED too, without a VIOLATION line)
+      ob=$(echo "$out" | grep '^FAILED' | awk '{print $2}' | while read o; do grep -qF "obligation=$o " KNOWN_FINDINGS.txt || { echo $o; break; }; done)
       res="$res $p:exit=$rc${ob:+($ob)}"
     else res="$res $p:not-claimed"; fi
   done
